@@ -18,6 +18,39 @@ CHECKS = {
              "(quick 5 / thorough 6 commands after the set-up prefix, random up to 40)",
         technique="TLA+ reference spec + TLC trace validation of real runs; TLC-generated histories",
         design="DESIGN.md §5 C01"),
+    "C08": dict(
+        level="model_checking",
+        text="MC_Auth enumerates every credential/permission state of a session and every command of "
+             "the command table in it; every history of a session that never becomes administrator is "
+             "run on two real servers that differ only in what administrators stored under $$ keys; "
+             "TLC validates the two-run trace against the self-composition Trace_NI (identical replies "
+             "and pushed lines, $$ keys unchanged by plain sessions) and each run against NunKV group SEC.",
+        note="single node; sessions through process_request; the two runs use the same virtual clock; "
+             "the design-level self-composition of NunKV is not model-checked stand-alone (the reference "
+             "is relational and is only checked against real runs)",
+        technique="TLA+ self-composition trace spec (non-interference) + TLC trace validation of paired real runs",
+        design="DESIGN.md §5 C08"),
+    "C09": dict(
+        level="model_checking",
+        text="MC_Auth (TLC, exhaustive): every (credential state x permission list) x every command with "
+             "matching / non-matching / secure key arguments, incl. permission changes mid-session; each "
+             "history is executed on the real node and every event validated against NunKV group AUTH "
+             "(unauthorised => error reply and no change of store, replication / supervisor / snapshot "
+             "queues; failed use-db keeps the selection).",
+        note="single node in role Primary; a session does not mix user-token and database-token "
+             "selections; user name 'all' and removal of permission keys are not generated",
+        technique="TLA+ reference spec + TLC trace validation; TLC-generated credential matrix",
+        design="DESIGN.md §5 C09"),
+    "C17": dict(
+        level="model_checking",
+        text="MC_Conn (TLC, exhaustive): all selections of 3 sessions over 2 databases x {use-db good / "
+             "bad / user token, disconnect, read}; invariant counter = number of open sessions; every "
+             "history runs on the real node and TLC validates counter, $connections key and the "
+             "watcher's notifications after every step (NunKV group CONN).",
+        note="disconnect is the transports' common path (unwatch-all + Client::left) invoked directly; "
+             "socket-level disconnect detection is covered only by the HTTP runs of C20",
+        technique="TLA+ reference spec + TLC trace validation; TLC-generated session histories",
+        design="DESIGN.md §5 C17"),
 }
 
 NOT_YET = "check not built yet (build in progress; see DESIGN.md §8 build order)"
